@@ -61,6 +61,8 @@ type FuncSpec struct {
 	Asserts    []*Clause
 	Holds      []string  // "holds mu" precondition: lock mu of receiver held (write mode)
 	WaitSet    []*CExpr
+	Preserves  []*CExpr // with modifies *: components guaranteed unchanged (comp(T.f), elemsof(T))
+	presCache  []string
 }
 
 type SpecFunc struct {
@@ -123,7 +125,7 @@ var headWords = map[string]bool{
 	"modifies": true, "panics": true, "decreases": true, "pure": true, "log": true, "logs": true, "loop": true,
 	"invariant": true, "trusted": true, "source": true, "nobody": true, "lock": true, "shared": true,
 	"ghost": true, "chan": true, "params": true, "creates": true, "consumes": true, "havoc": true, "assert": true,
-	"holds": true, "waitset": true, "immutable": true, "ptriface": true,
+	"holds": true, "waitset": true, "immutable": true, "ptriface": true, "preserves": true,
 }
 
 type rawLine struct {
@@ -372,6 +374,19 @@ func (cs *Contracts) LoadContractFile(path, pkgPath string, pkgImports map[strin
 					continue
 				}
 				curF.Modifies = append(curF.Modifies, e)
+			}
+		case "preserves":
+			if curF == nil {
+				cs.errf(ctx, c.line, "preserves outside func")
+				continue
+			}
+			for _, part := range splitTop(rest) {
+				e, err := ParseCExpr(part)
+				if err != nil {
+					cs.errf(ctx, c.line, "%v", err)
+					continue
+				}
+				curF.Preserves = append(curF.Preserves, e)
 			}
 		case "havoc":
 			if curF != nil {
